@@ -21,7 +21,7 @@ ASSUMPTIONS = [
     "Redis/MongoDB/Zarr are in-process fakes",
 ]
 STRATA = ["clean", "collide"]
-PER = {"quick": {"clean": 80, "collide": 15}, "thorough": {"clean": 2500, "collide": 300}}
+PER = {"quick": {"clean": 400, "collide": 60}, "thorough": {"clean": 2500, "collide": 300}}
 
 KINDS = ["missing", "null", "bool", "int", "float", "str", "dict", "list"]
 
